@@ -253,16 +253,28 @@ def emptyReadyAux (ordered waker : Bool) : Nat → List (QEntry β) → Prog β 
 def emptyReady (ordered waker : Bool) (q : List (QEntry β)) : Prog β (List (QEntry β) × Bool) :=
   emptyReadyAux ordered waker (q.length + 1) q
 
-def resolveC (ordered waker : Bool) : Comb (List (QEntry β)) (Nat × β) β where
-  ready := fun q => emptyReady ordered waker q
-  send := fun q x =>
-    let q1 := q ++ [⟨x.1, x.2, false⟩]
+/-- local state of `ResolveFutures`: the (external) queue and the `finalizing` flag -/
+structure ResSt (β : Type) where
+  q : List (QEntry β)
+  finalizing : Bool := false
+
+/-- `empty_ready` with its guard: once `finalizing` is set nothing is polled or sent any more.
+    `fl` is the value of the flag afterwards when the loop reports `Done` (`poll_finalize` sets it
+    right after `ready!(empty_ready)`, before `push.poll_finalize`). -/
+def resEmptyReady (ordered waker fl : Bool) (k : ResSt β) : Prog β (ResSt β × Bool) :=
+  if k.finalizing then ret (k, true) else
+    (emptyReady ordered waker k.q).bind fun r => ret (⟨r.1, fl && r.2⟩, r.2)
+
+def resolveC (ordered waker : Bool) : Comb (ResSt β) (Nat × β) β where
+  ready := fun k => resEmptyReady ordered waker false k
+  send := fun k x =>
+    let q1 := k.q ++ [⟨x.1, x.2, false⟩]
     if waker then
       match qPoll ordered q1 with
-      | (q2, .item y) => snd 0 y (ret q2)
-      | (q2, _) => ret q2
-    else ret q1
-  fin := fun q => thenFin 0 (emptyReady ordered waker q)
+      | (q2, .item y) => snd 0 y (ret { k with q := q2 })
+      | (q2, _) => ret { k with q := q2 }
+    else ret { k with q := q1 }
+  fin := fun k => thenFin 0 (resEmptyReady ordered waker true k)
 
 /-! ### FilterMapAsync: `buffer` (future = delay + output), `resolved` -/
 
